@@ -277,9 +277,9 @@ func (trans *Transport) getConn(ctx context.Context) (conn *conn, err error) {
 		trans.lock.Lock()
 		if trans.conns[key] == conn {
 			delete(trans.conns, key)
-			cancel()
 		}
 		trans.lock.Unlock()
+		cancel()
 	}
 	go conn.Send(ctx, onExit)
 	go conn.Receive(ctx, onExit)
